@@ -425,6 +425,10 @@ func validateStaticValue(nodeKey string, path FieldPath, value any, inputType re
 		return fmt.Errorf("static value of node %s has an invalid field path %v: %w", nodeKey, path, err)
 	}
 
+	if err = checkFieldPathSettable(path, inputType); err != nil {
+		return fmt.Errorf("static value of node %s has an invalid field path %v: %w", nodeKey, path, err)
+	}
+
 	if intermediateInterface {
 		if fieldType == anyType {
 			return nil // at request time this 'any' is expanded to 'map[string]any'
